@@ -24,6 +24,7 @@ fn main() {
             eprintln!("unknown child {}", args[2]);
             2
         });
+        engine::sandbox::cleanup_scratch();
         std::process::exit(code);
     }
     if args[1] == "selftest" {
@@ -36,6 +37,8 @@ fn main() {
         }
         std::process::exit(0);
     }
+    // scratch roots of harness processes that no longer exist (killed, crashed) are removed first
+    engine::sandbox::sweep_stale();
     let id = args[1].clone();
     let verif_dir = PathBuf::from(std::env::var("VERIF_DIR").unwrap_or_else(|_| "/verif".into()));
     if args[2] == "replay" {
